@@ -176,9 +176,9 @@ Print Assumptions C10_tables_known.
 
 Theorem C10_where_rows :
   forallb (fun k => match assoc key3_eqb (OpWHERE, KList, k) expr_functions with Some G_whereList => true | _ => false end)
-          [KNoArg; KBool; KInt; KString; KList; KSet; KMap]
+          [KNoArg; KBool; KInt; KFloat; KString; KList; KSet; KMap; KNull]
   && forallb (fun k => match assoc key3_eqb (OpWHERE, KSet, k) expr_functions with Some G_whereSet => true | _ => false end)
-          [KNoArg; KBool; KInt; KString; KList; KSet; KMap] = true.
+          [KNoArg; KBool; KInt; KFloat; KString; KList; KSet; KMap; KNull] = true.
 Proof. exact where_rows. Qed.
 Print Assumptions C10_where_rows.
 
